@@ -18,6 +18,7 @@ import Ymq.Lemmas.Stage2Ladders
 import Ymq.Lemmas.Stage2Exp
 import Ymq.Lemmas.Stage2ExpLarge
 import Ymq.Lemmas.Stage2Extract
+import Ymq.Lemmas.Stage2Pratt
 import Ymq.Lemmas.Params
 
 namespace Ymq.C16
@@ -566,7 +567,7 @@ theorem reported_le_effective_partial_pm1 :
 
 /-- For every bad row the generated witness `w` (third component) lies in `(effective B2, label]`,
 does not divide `d1`… and, being above the upper end, is not tested: no multiple of it is a grid
-value.  (That `w` is prime is checked by the translator and the oracle, not here.) -/
+value.  (That `w` is prime: `bad_row_witnesses_prime` below.) -/
 def witnessOk (eff : Nat → Nat → Nat) (table : List (Nat × Nat × Nat)) (t : Nat × Nat × Nat) : Bool :=
   table.any fun r => r.1 == t.1 && decide (eff r.2.1 r.2.2 = t.2.1) && decide (t.2.1 < t.2.2) && decide (t.2.2 ≤ r.1) &&
     Nat.gcd t.2.2 r.2.1 == 1 && decide (r.2.1 + 1 < t.2.2)
@@ -576,6 +577,31 @@ theorem bad_rows_miss_a_value :
     (Stage2Arms.pp1BadRows.all (witnessOk pp1Eff Stage2.ecmTable)) = true ∧
     (Stage2Arms.pm1BadRows.all (witnessOk (fun d1 d2 => pm1EffRow (0, d1, d2)) Stage2.pm1Table)) = true := by
   refine ⟨?_, ?_, ?_⟩ <;> decide
+
+/-- the witnesses are prime: the generated Pratt certificates check (kernel evaluation of `prattTable`), and
+`prattTable` is sound by Lucas' criterion -/
+def witnessesCertified : Bool :=
+  match prattTable [] Stage2Arms.witnessCerts with
+  | some known => (Stage2Arms.ecmBadRows ++ Stage2Arms.pp1BadRows ++ Stage2Arms.pm1BadRows).all fun t =>
+      known.contains t.2.2 || (decide (t.2.2 < 65536) && isPrimeTD t.2.2)
+  | none => false
+
+theorem witnesses_certified : witnessesCertified = true := by decide +kernel
+
+/-- every bad row misses a **prime** `w` with `effective B2 < w ≤ label`, `w ∤ d1` (`bad_rows_miss_a_value`):
+the full statement `reported_le_effective` fails on an actual stage-2 prime, not only on a grid value. -/
+theorem bad_row_witnesses_prime :
+    ∀ t ∈ Stage2Arms.ecmBadRows ++ Stage2Arms.pp1BadRows ++ Stage2Arms.pm1BadRows, Nat.Prime t.2.2 := by
+  intro t ht
+  have h := witnesses_certified
+  unfold witnessesCertified at h
+  cases hk : prattTable [] Stage2Arms.witnessCerts with
+  | none => simp [hk] at h
+  | some known =>
+    simp only [hk, List.all_eq_true, List.contains_iff_mem, Bool.or_eq_true, Bool.and_eq_true, decide_eq_true_eq] at h
+    rcases h t ht with hm | ⟨hlt, htd⟩
+    · exact prattTable_sound _ [] known (by simp) hk _ hm
+    · exact isPrimeTD_sound (by omega) htd
 
 /-! ### hard-wired (B1, B2) -/
 
